@@ -7,6 +7,7 @@ import MosnVerif.Model.Tars
 import MosnVerif.Model.EnvelopeRef
 import MosnVerif.Model.HttpUri
 import MosnVerif.Model.Relay
+import MosnVerif.Model.Http1Msg
 /-!
 Driver of C01 (forwarding fidelity).  Case lines:
 
@@ -260,6 +261,41 @@ def boltLocalCase (codec what idS stS : String) (impl : List String) : String :=
     | _, _ => "D V model-refuses"
   | _, _, _ => "E E bad-local-case"
 
+/-! ### HTTP/1 through the real proxy core
+
+  `http1 req <METHOD> <targetHex> <hdrs> <bodyHex> => <METHOD> <targetHex> <hdrs> <bodyHex> | lost`
+  `http1 resp <requestMethod> <status> <hdrs> <bodyHex> => <status> <hdrs> <bodyHex> | lost` -/
+
+def hdrList (s : String) : List String := if s == "-" then [] else s.splitOn ","
+
+/-- the trailing `?` of an empty query is dropped (see `HttpUri`): hex `3f` at the end, no other `?` -/
+def dropBareQuestionMark (tHex : String) : String :=
+  match unhex tHex with
+  | some b =>
+    let cs := b.map (fun x => Char.ofNat x.toNat)
+    if cs.getLast? == some '?' && (cs.dropLast.all (· != '?')) then hex (b.dropLast) else tHex
+  | none => tHex
+
+def http1Case (toks impl : List String) : String :=
+  let fmt (agree spec : Bool) (m : String) := s!"{if agree then "A" else "D"} {if spec then "S" else "V"} {m}"
+  match toks, impl with
+  | ["req", method, target, hdrs, body], [gm, gt, gh, gb] =>
+    let sent : Http1Msg.Msg := { start := method ++ " " ++ target, headers := hdrList hdrs, body := body }
+    let got : Http1Msg.Msg := { start := gm ++ " " ++ gt, headers := hdrList gh, body := gb }
+    let kept : Http1Msg.Msg := { sent with headers := Http1Msg.dropEmptySpecial true sent.headers }
+    let model : Http1Msg.Msg :=
+      { sent with start := method ++ " " ++ dropBareQuestionMark target,
+                  headers := sortStrings (kept.headers ++ Http1Msg.reqAdds method kept) }
+    fmt (model == got) (Http1Msg.same sent got) (joinWith "," model.headers)
+  | ["resp", _, status, hdrs, body], [gs, gh, gb] =>
+    let sent : Http1Msg.Msg := { start := status, headers := hdrList hdrs, body := body }
+    let got : Http1Msg.Msg := { start := gs, headers := hdrList gh, body := gb }
+    let kept : Http1Msg.Msg := { sent with headers := Http1Msg.dropEmptySpecial false sent.headers }
+    let model : Http1Msg.Msg := { sent with headers := sortStrings (kept.headers ++ Http1Msg.respAdds kept) }
+    fmt (model == got) (Http1Msg.same sent got) (joinWith "," model.headers)
+  | _, ["lost"] => "D V lost"
+  | _, _ => "E E bad-http1-case"
+
 def run (caseToks impl : List String) : String :=
   match caseToks with
   | ["bolt", id, ops, inp] => boltCase false id ops inp impl
@@ -270,6 +306,7 @@ def run (caseToks impl : List String) : String :=
   | ["tars", kind, id, ops, valid, fields, inp] => tarsCase kind id ops valid fields inp impl
   | ["uri", t, rw, pv, po, qs, un, fh, ru] => uriCase t rw pv po qs un fh ru impl
   | ["relay", scen, cs, ss, ex] => relayCase scen cs ss ex impl
+  | "http1" :: r => http1Case r impl
   | _ => "E E unknown-kind"
 
 end MosnVerif.Drive.C01
